@@ -118,6 +118,8 @@ def regonly_entries(mm, isa):
                 continue
             if not f.port_pressure:
                 continue
+            if len(f.operands) > (4 if isa == "x86" else 5):
+                continue  # more operands than the assembly grammar of that ISA accepts
             out.append(f)
     return out
 
@@ -132,11 +134,20 @@ def shipped_stream_text(rng, entries, isa, nmin=8, nmax=16):
         # forms with alternative port assignments / with pressure but zero throughput are rare in the models
         pool = pool[: rng.randint(0, 3)] + rng.sample(special, min(len(special), rng.randint(1, 2)))
     lines = []
+    from osaca.parser import get_parser
+
+    parser = get_parser(isa)
     for k in range(n):
         f = rng.choice(pool)
         ln = synth.render(isa, f, nbase=rng.randint(0, 5))
         if ln:
+            try:
+                parser.parse_line(ln, 1)
+            except Exception:  # noqa  a rendering the parser rejects is not an input of these properties (C09/C10)
+                continue
             lines.append(ln)
+    if not lines:
+        lines = ["nop"]
     return "\n".join(lines) + "\n"
 
 
